@@ -18,12 +18,18 @@
       the text denotes (`bundled_engine_exact_wrt_text`).
   Trusted here: the independent reader and the pairing by (class, case-insensitive name) in harness/extract.py.
   NOT proved: completeness for the rules that reach a first-match flag (there the flag semantics of C11 applies; tie:
-  differential of ./check C09), and that every rule accepts at least one string.
+  differential of ./check C09).
+    * **every bundled rule accepts at least one string** (`bundled_rule_accepts_some_string`: verified productivity checker
+      `prodWalk` of Abnf/Productive.lean on a harness-computed order, kernel-evaluated; RFC reading of the compiled
+      definition) and, for the rules that reach no first-match flag or exclusion, the ENGINE accepts that string
+      (`bundled_plain_rule_engine_accepts_some_string`).  For the rules that reach a flag the engine-level statement is
+      not a theorem (tie: every rule is run on a derived sentence by ./check C09).
 -/
 import Abnf.Obligations.BundledFacts
 import Abnf.EquivFast
 import Abnf.AcceptOn
 import AbnfGen.RefBundled
+import Abnf.Productive
 namespace Abnf.C09
 
 /-! ### the compiled table against the independent reading of the module texts -/
@@ -120,5 +126,37 @@ theorem bundled_engine_exact_wrt_text (r b : Nat) (hmem : (r, b) ∈ AbnfGen.c09
   | gerr => exact absurd hres hg
   | fail => exact Or.inr ⟨rfl, fun j hm => c2 hres j ((compiled_equiv_text r b hmem s i j).mpr hm)⟩
   | ok ms => exact Or.inl ⟨ms, rfl, fun j => (c1 ms hres j).trans (compiled_equiv_text r b hmem s i j)⟩
+
+/-! ### every bundled rule accepts at least one string -/
+
+/-- the productivity walk over the regenerated table ends with every rule in the mask (kernel-evaluated) -/
+theorem prod_walk :
+    prodWalk (treeDefn AbnfGen.bundledGT) AbnfGen.bundledGProd 0 = 2 ^ AbnfGen.bundledG.size - 1 := by decide +kernel
+
+/-- **Every bundled rule accepts at least one string**: some text is derived in its entirety from the compiled rule
+(RFC 5234 reading of the compiled definition; first-match flags and exclusions play no part in this statement). -/
+theorem bundled_rule_accepts_some_string (r : Nat) (hr : r < AbnfGen.bundledG.size) :
+    ∃ s : Src, M AbnfGen.bundledG s (.ref r) 0 s.length :=
+  productive_of_walk (G := AbnfGen.bundledG) (fun k => treeDefn_eq AbnfGen.bundledGT tree_wf k)
+    AbnfGen.bundledGProd AbnfGen.bundledG.size prod_walk r hr
+
+/-- ... and for every rule that reaches no first-match flag and no exclusion the ENGINE lists the end of that text
+(so `parse_all` accepts it), within the explicit recursion depth. -/
+theorem bundled_plain_rule_engine_accepts_some_string (r : Nat) (hr : r < AbnfGen.bundledG.size)
+    (hplain : AbnfGen.c09PlainMask.testBit r = true) :
+    ∃ s : Src, ∀ f, fuelFor AbnfGen.bundledG.size AbnfGen.bundledGD s.length AbnfGen.bundledG.size 0 ≤ f →
+      ∃ ms, lparse AbnfGen.bundledG f s (.ref r) 0 = .ok ms ∧ s.length ∈ stops ms := by
+  obtain ⟨s, hm⟩ := bundled_rule_accepts_some_string r hr
+  refine ⟨s, fun f hf => ?_⟩
+  have ht := (C12.terminates bundled_wellformed s r 0 (Nat.zero_le _) f (by simpa using hf)).1
+  have hg := closed_noGerr AbnfGen.bundledG bundled_closed f s (.ref r) 0
+    (defined_of_closedFast _ Obl.Bundled.bundled_closed r hr)
+  obtain ⟨c1, c2⟩ := ends_iff_derivable_on AbnfGen.bundledG bundled_wellformed.bounds _
+    (plainOnG_sound _ _ plain_reach) f s r hplain 0
+  cases hres : lparse AbnfGen.bundledG f s (.ref r) 0 with
+  | oof => exact absurd hres ht
+  | gerr => exact absurd hres hg
+  | fail => exact absurd hm (c2 hres s.length)
+  | ok ms => exact ⟨ms, rfl, (c1 ms hres s.length).mpr hm⟩
 
 end Abnf.C09
